@@ -21,4 +21,6 @@ def run(ctx):
     ctx.rule("R-LOCAL-DEFINED", "no path of a DM1 / DTC / DM22 function reads a local before assigning it (the DM1 sender runs as a timer callback)", floor=15)
     GN.local_defined(ctx, [f for f in ctx.prog.funcs.values() if f.cls is not None and f.cls.name in ("Dm1", "DTC", "DtcLamp", "Dm22")],
                      why=" - raised in the cyclic sender it ends the job thread: no further DM1 is sent")
+    ctx.rule("R-DM1-STEPS", "receive: store, parse afresh, fan out; send: ask the callback each cycle; stop_send / unsubscribe remove; DM22 requests are sent", floor=10)
+    D.dm1_steps(ctx)
     return "bit layouts of DTC/DM1/DM22 against the J1939-73 tables and registration/deregistration key agreement"
